@@ -140,3 +140,82 @@ def method_calls(root, suffix, recv_pred=None):
             if recv_pred is None or recv_pred(n['recv']):
                 out.append((n, ctx))
     return out
+
+
+class ConnSettings:
+    """Role anchors of the connection settings struct (public, anchored by def-path).  Its fields are private: each is found as
+    *the field the public setter writes*, never by name.  For a bool request the polarity is read from the setter too: `stored[v]`
+    is the value the field holds after `set_x(v)` (the setter is evaluated exactly for v = true and v = false, the whole domain).
+
+      role            setter (public API)                 field holds
+      verify-off      set_no_tls_verify(bool)             stored[true] when verification was explicitly disabled
+      starttls        set_starttls(bool)                  stored[true] when StartTLS was requested
+      connector       set_connector(c) / set_config(c)    Some(c): the caller's own TLS connector / configuration
+      std-stream      set_std_stream(s)                   Some(s): a pre-opened stream
+      conn-timeout    set_conn_timeout(d)                 Some(d)
+    A setter that exists but does not store (on every path, exactly) one field of `self` raises AnchorMissing."""
+    ST = 'ldap3::conn::LdapConnSettings'
+    BOOL = {'verify-off': ('set_no_tls_verify',), 'starttls': ('set_starttls',)}
+    OPT = {'connector': ('set_connector', 'set_config'), 'std-stream': ('set_std_stream',), 'conn-timeout': ('set_conn_timeout',)}
+
+    def __init__(self, facts):
+        import absx
+        self.facts = facts
+        it = facts.items.get(self.ST)
+        if it is None or it.get('kind') != 'Struct':
+            raise AnchorMissing('connection settings struct ' + self.ST)
+        self.fields = {fl['name']: fl['ty'] for v in it['variants'] for fl in v['fields']}
+        self.field = {}      # role -> field name
+        self.stored = {}     # bool role -> {True: term, False: term}
+        self.setter = {}     # role -> def path of the setter that resolved it
+        SELF = ('param', 'self')
+        for role, names in list(self.BOOL.items()) + list(self.OPT.items()):
+            for nm in names:
+                p = '%s::%s' % (self.ST, nm)
+                if p not in facts.hir:
+                    continue
+                B = hirq.Body(facts, facts.body(p))
+                args = [(b, d) for b, d in B.defs.items() if d['kind'] == 'param' and d['idx'] == 1 and not d['proj']]
+                if len(args) != 1:
+                    raise AnchorMissing('%s: expected (self, value)' % p)
+                runs = {}
+                for val in ((True, False) if role in self.BOOL else (None,)):
+                    I = absx.Interp(facts, B, combinators=True)
+                    env = I.param_env()
+                    if val is not None:
+                        env[args[0][0]] = ('lit', val)
+                    written = set()
+                    for o in I.run(env=env):
+                        if o.kind == 'div':
+                            continue
+                        mine = {k[2]: v for k, v in o.st.heap.items() if k[0] == 'field' and k[1] == SELF}
+                        if o.kind not in ('val', 'ret') or o.val != SELF or len(mine) != 1:
+                            raise AnchorMissing('%s does not return `self` with exactly one field written (%s)' % (p, sorted(mine)))
+                        written.add(tuple(mine.items())[0])
+                    if len(written) != 1:
+                        raise AnchorMissing('%s: the field written depends on the path' % p)
+                    runs[val] = written.pop()
+                fnames = {fv[0] for fv in runs.values()}
+                if len(fnames) != 1 or (role in self.field and self.field[role] not in fnames and role != 'connector'):
+                    raise AnchorMissing('%s: the field written depends on the argument' % p)
+                fname = fnames.pop()
+                if role in self.OPT:
+                    want = ('ctor', 'Some', (('param', args[0][1]['name']),))
+                    if runs[None][1] != want:
+                        raise AnchorMissing('%s does not store Some(<its argument>)' % p)
+                else:
+                    self.stored[role] = {v: runs[v][1] for v in (True, False)}
+                self.field.setdefault(role, fname)
+                self.setter.setdefault(role, p)
+                if role == 'connector' and self.field[role] != fname:
+                    # both TLS back ends compiled in at once is not a supported configuration of the crate
+                    raise AnchorMissing('two caller-supplied connector fields')
+
+    def polarity_ok(self, role):
+        """the setter records the request: what it stores for `true` and for `false` are the two distinct boolean constants"""
+        s = self.stored.get(role)
+        return s is not None and {s[True], s[False]} == {('lit', True), ('lit', False)}
+
+    def requested(self, role, truth):
+        """Given the truth value a path found for the role's field: was the request made (set_x(true))?"""
+        return ('lit', truth) == self.stored[role][True]
